@@ -15,6 +15,17 @@ def proof_part(run, prop):
     run.obligations += n
     run.coverage["theorems"] = res["theorems"]
     run.coverage["print_assumptions"] = res["assumptions"]
+    if res["ok"] and run.tier == "thorough":
+        # independent re-check of the compiled closure of the property file, and its axiom summary
+        rc, out = vlib.sh(["coqchk", "-silent", "-o", "-Q", ".", "Zvt", "Zvt.Properties.%s" % prop], cwd=vlib.COQ, timeout=3000)
+        tail = out[out.find("CONTEXT SUMMARY"):] if "CONTEXT SUMMARY" in out else out[-800:]
+        run.coverage["coqchk"] = " ".join(tail.split())[:600]
+        clean = (rc == 0 and "Axioms: <none>" in tail and "type-in-type: <none>" in tail
+                 and "unsafe (co)fixpoints: <none>" in tail and "positivity is assumed: <none>" in tail)
+        if not clean:
+            res["ok"] = False
+            res["problems"].append("coqchk does not accept the closure of Properties/%s.v cleanly" % prop)
+            res["log"] = out[-1500:]
     if res["ok"]:
         run.discharged += n
     else:
